@@ -349,10 +349,22 @@ def first_reason_rule(ctx, rule, why):
     for st, t in stores:
         node = g.node_of(st)
         obj = ast.unparse(t.value)
-        earlier = [d for nd, d, s2 in setters if nd is not None and s2 is not st and node.id in g.reachable_from(nd.id) and
-                   not (s2.lineno > st.lineno and enclosing(s2, (ast.For, ast.While)) is None)]
-        # loop back edges make everything reachable: only count setters of the same iteration that come first in program order
-        earlier = [d for (nd, d, s2) in setters if nd is not None and s2 is not st and s2.lineno < st.lineno and node.id in g.reachable_from(nd.id)]
+        # setters that can run before this store IN THE SAME ITERATION of the per-request loop (paths through a loop head that
+        # encloses both are not followed: the next iteration handles another request)
+        earlier = []
+        for nd, d, s2 in setters:
+            if nd is None or s2 is st:
+                continue
+            heads = set()
+            cur_ = getattr(st, '_parent', None)
+            while cur_ is not None:
+                if isinstance(cur_, (ast.For, ast.While)) and any(s2 is x for x in ast.walk(cur_)):
+                    h_ = g.node_of(cur_)
+                    if h_ is not None:
+                        heads.add(h_.id)
+                cur_ = getattr(cur_, '_parent', None)
+            if node.id in g.reachable_from(nd.id, avoid=lambda m: m.id in heads):
+                earlier.append(d)
         guard = None
         cur = getattr(st, '_parent', None)
         while cur is not None and cur is not f.node:
